@@ -77,6 +77,14 @@ func (c *TimedCheck) SetSleepDuration(newDuration time.Duration) {
 	c.sleepDuration.Set(newDuration.Nanoseconds())
 }
 
+// SetTimeAfterFunc changes TimeAfterFunc while the check may be in use by other goroutines
+func (c *TimedCheck) SetTimeAfterFunc(f func(time.Duration, func()) *time.Timer) {
+	c.mu.Lock()
+	c.TimeAfterFunc = f
+	c.mu.Unlock()
+}
+
+// afterFunc must be called with the lock held
 func (c *TimedCheck) afterFunc(d time.Duration, f func()) *time.Timer {
 	if c.TimeAfterFunc == nil {
 		return time.AfterFunc(d, f)
